@@ -1334,7 +1334,9 @@ def enc_key(k):
 
 def enc_node(n):
     k = n["k"]
-    l = [KINDC[k], n.get("wd", 0), 1 if n.get("box") else 0, n.get("ht", 0), n.get("wt", 0)]
+    deco = n.get("deco") or []
+    l = [KINDC[k], n.get("wd", 0), 1 if n.get("box") else 0, n.get("ht", 0), n.get("wt", 0),
+         2 if "dis" in deco else (1 if "pad" in deco else 0)]
     if k == "leaf":
         l += [1 if n["sel"] else 0, len(n["keys"])]
         for key in n["keys"]:
@@ -1496,6 +1498,12 @@ class C08(core.Check):
                   "setters and the key->command table are re-translated from the source each run; all other model code is hand-written "
                   "and tied by an exact extracted-model correspondence (9.5k cases per quick run: op results, offered leaves, leaves "
                   "rendered with focus, every container's focus_position and selectable(), get_focus_path after every operation).  "
+                  "Decorations are inside the model with exact correspondence (AttrMap, Padding, WidgetDisable, nested): the "
+                  "routes of clauses 2 and 6 provably never pass through a WidgetDisable.  Left/right in Columns give the focus to "
+                  "the NEAREST selectable column, up/down in a Pile to the first selectable candidate, and nothing is written "
+                  "exactly when no candidate is selectable (theorems over all trees).  Contents edits are C16 MonitoredFocusList "
+                  "steps (imported model + step_sound), so the focus after an edit is computed by the C16 model; ListBox over a "
+                  "plain list uses the SimpleListWalker rule.  "
                   "Geometry modelled: given and WEIGHTED Pile items (box-mode row distribution) and Columns (column_widths with "
                   "weights), flow leaves of 1-3 rows, GridFlow wrapping, pref_col / move_cursor_to_coords through nested containers.")
     level_note = ("Trusted: Coq kernel, py2v translator, extraction + OCaml driver, the hand-written model and its geometry abstraction "
@@ -1509,9 +1517,9 @@ class C08(core.Check):
             "save/restore of get_focus_path, contents edits through every C16 list operation, Frame header/footer replacement "
             "and deletion); geometry restricted to the everything-fits regime (given widths/heights, all ListBox items visible); "
             "exhaustive single operations on one-level containers with <= 3 children of every selectability pattern (ListBox over "
-            "both walkers); AttrMap around some children in the modelled stream; two ORACLE-ONLY streams outside the modelled "
-            "regime: non-transparent decorations (Padding, WidgetDisable, AttrMap, nested) around leaves and containers, and the same "
-            "trees on a screen of 1-8 rows (clipped Frame headers, scrolling list boxes); "
+            "both walkers); decorations around leaves and containers (AttrMap, Padding, WidgetDisable, nested two deep) in the "
+            "modelled streams; one ORACLE-ONLY stream outside the modelled regime: the same trees on a screen of 1-8 rows "
+            "(clipped Frame headers, scrolling list boxes); "
             "non-trivial = some focus position changed, a key was offered or an operation raised; distinct by hash of (case, outcome)")
     trusted_base = [
         "Coq 8.16.1 kernel (coqc; vm_compute only in closed examples and the _refuted witnesses)",
@@ -1523,9 +1531,10 @@ class C08(core.Check):
         "Python oracle and spy leaves in harness/props/c08.py",
     ]
     assumptions = [
-        "leaves are non-cursor widgets without get_pref_col/move_cursor_to_coords; in the model AttrMap is the only decoration "
-        "(transparent; never around a container that is a Frame header/footer, which Frame tests for truth); Padding / WidgetDisable "
-        "decorations and screens too short for the tree are judged by the oracle only (no correspondence)",
+        "leaves are non-cursor widgets without get_pref_col/move_cursor_to_coords; decorations modelled: AttrMap (transparent), "
+        "Padding(w) with left = right = 0 (clamps the column of move_cursor_to_coords), WidgetDisable (inert: unselectable, stops keys, "
+        "mouse events and the render focus flag); no decoration around a container that is a Frame header/footer (Frame tests it for "
+        "truth); screens too short for the tree are judged by the oracle only (no correspondence)",
         "Pile children are ('pack'), ('given', n) or ('weight', w) (weights share the rows of a Pile that is itself given a height: a "
         "'given' child of a Pile, a box column, or the root; in a flow Pile a weighted child is packed; no weights in a Pile that fills a "
         "Frame/Overlay slot); Columns children are ('given', w) or, for leaves, ('weight', w), and all columns fit; GridFlow cells are "
@@ -1558,8 +1567,8 @@ class C08(core.Check):
 
     # ---------- model wire format ----------
     def encode(self, case):
-        if case.get("tight") or any(d != "attr" for n in case["nodes"] for d in (n.get("deco") or [])):
-            return None      # outside the modelled regime (clipped geometry, non-transparent decorations): oracle only
+        if case.get("tight"):
+            return None      # outside the modelled regime (clipped geometry): oracle only
         l = [case["W"], case["H"], case["root"], len(case["nodes"])]
         for n in case["nodes"]:
             l += enc_node(n)
@@ -1679,8 +1688,8 @@ class C08(core.Check):
         return g.case()
 
     def deco_case(self, rng):
-        """oracle only: decorations that are not transparent (Padding has its own cursor methods, WidgetDisable
-        overrides selectable()) around leaves and containers"""
+        """decorations that are not transparent (Padding has its own cursor methods, WidgetDisable overrides
+        selectable()) around leaves and containers; modelled like everything else"""
         g = Gen(rng, depth=rng.choice([2, 3, 3, 4]), size=rng.choice([1, 2, 3]), deco=("attr", "pad", "dis", "dis"), pdeco=0.3)
         return g.case()
 
